@@ -33,3 +33,20 @@ Proof. exact bind_params_erase. Qed.
 Theorem C16_cfg_on_oneof_is_always_an_error : forall a p cs, p_type p = POneOf cs -> p_cfgs p <> [] ->
   bind_step a p = inl ECfgOnOneOf.
 Proof. intros a p cs Ht Hc. unfold bind_step. rewrite Ht. destruct (p_cfgs p); [contradiction|reflexivity]. Qed.
+
+(** The cfg-probing macro_rules! chain, as translated from generate/cfg.rs on this run (both the
+    declaration-level and the query-level generator): every link appends its literal, `true` under
+    #[cfg(p)] and `false` under #[cfg(not(p))], so the chain delivers the truth values of the collected
+    predicates in their order ... *)
+Theorem C16_macro_chain_delivers_truth_values_in_order : forall (truth : nat -> bool) (preds : list nat),
+  cfg_chain cfg_outer_pos cfg_outer_neg truth preds = truth <$> preds /\
+  cfg_chain cfg_inner_pos cfg_inner_neg truth preds = truth <$> preds.
+Proof. intros truth preds. split; exact (cfg_chain_in_order truth preds). Qed.
+
+(** ... and with that list the decorated declaration is its erasure, for every truth assignment. *)
+Theorem C16_declaration_end_to_end : forall w (truth : nat -> bool),
+  let preds := world_predicates w in
+  let states := cfg_chain cfg_outer_pos cfg_outer_neg truth preds in
+  (forall p, p ∈ preds -> cfg_lookup preds states p = Some (truth p)) /\
+  data_world_new w states = data_world_new (erase_world (cfg_lookup preds states) w) [].
+Proof. exact data_world_new_chain. Qed.
